@@ -136,7 +136,9 @@ extern MPT_STRUCT(command) *mpt_command_reserve(MPT_STRUCT(array) *arr, size_t m
 	msg->_used = used * sizeof(*cmd);
 	
 	/* try to find low free id */
-	if (++mid > max) {
+	if (mid < max) {
+		++mid;
+	} else {
 		for (i = 1; i <= max; ++i) {
 			if (!mpt_command_find(base, used, i)) {
 				mid = i;
